@@ -86,15 +86,20 @@ func buildImage(r *rand.Rand, sp *spec) []byte {
 	for _, e := range entries {
 		putEntry(e.guid, e.payload, len(e.payload)+tdxref.EntrySize)
 	}
-	// metadata GUID + descriptor + sections
+	writeSections(fw, sp.DescOff, sp.Sections)
+	return fw
+}
+
+// writeSections writes the TDVF metadata GUID, descriptor and section table at descOff.
+func writeSections(fw []byte, descOff int, secs []tdxref.Section) {
 	g := tdxref.GUIDBytes(tdxref.GUIDTdvfMetadata)
-	copy(fw[sp.DescOff-16:], g[:])
-	d := fw[sp.DescOff:]
+	copy(fw[descOff-16:], g[:])
+	d := fw[descOff:]
 	binary.LittleEndian.PutUint32(d[0:], 0x46564454)
-	binary.LittleEndian.PutUint32(d[4:], uint32(16+32*len(sp.Sections)))
+	binary.LittleEndian.PutUint32(d[4:], uint32(16+32*len(secs)))
 	binary.LittleEndian.PutUint32(d[8:], 1)
-	binary.LittleEndian.PutUint32(d[12:], uint32(len(sp.Sections)))
-	for i, s := range sp.Sections {
+	binary.LittleEndian.PutUint32(d[12:], uint32(len(secs)))
+	for i, s := range secs {
 		b := d[16+32*i:]
 		binary.LittleEndian.PutUint32(b[0:], s.DataOffset)
 		binary.LittleEndian.PutUint32(b[4:], s.DataSize)
@@ -103,7 +108,6 @@ func buildImage(r *rand.Rand, sp *spec) []byte {
 		binary.LittleEndian.PutUint32(b[24:], s.Type)
 		binary.LittleEndian.PutUint32(b[28:], s.Attr)
 	}
-	return fw
 }
 
 // tableReserve is an upper bound of the bytes the GUIDed table can take at the end of the image.
@@ -291,6 +295,60 @@ func genSpec(r *rand.Rand) *spec {
 	bases := placeMemory(r, sizes)
 	for i := range sp.Sections {
 		sp.Sections[i].MemBase = bases[i]
+	}
+	// 0-2 EMPTY temporary-memory sections (MemorySize 0): any declared position, in particular before the
+	// TD HOB and last; base = page-aligned, at another section's start or end, or a free page, never
+	// strictly inside another section.
+	if r.IntN(4) == 0 {
+		for n := 1 + r.IntN(2); n > 0; n-- {
+			z := tdxref.Section{Type: tdxref.TypeTempMem}
+			if r.IntN(4) == 0 {
+				z.Attr = tdxref.AttrExtendMR
+			}
+			for try := 0; try < 20; try++ {
+				o := sp.Sections[r.IntN(len(sp.Sections))]
+				switch r.IntN(6) {
+				case 0:
+					z.MemBase = o.MemBase
+				case 1:
+					z.MemBase = o.End()
+				case 2:
+					z.MemBase = o.End() + page
+				case 3:
+					z.MemBase = []uint64{0, page, 3 * gib, 4*gib - page, 4 * gib, top40}[r.IntN(6)]
+				default:
+					z.MemBase = (r.Uint64() % top40) &^ (page - 1)
+				}
+				inside := false
+				for _, q := range sp.Sections {
+					if q.MemSize != 0 && z.MemBase > q.MemBase && z.MemBase < q.End() {
+						inside = true
+					}
+				}
+				if !inside {
+					break
+				}
+				z.MemBase = top40
+			}
+			hobAt := 0
+			for k, q := range sp.Sections {
+				if q.Type == tdxref.TypeTDHOB {
+					hobAt = k
+				}
+			}
+			var pos int
+			switch r.IntN(4) {
+			case 0:
+				pos = r.IntN(hobAt + 1) // before the TD HOB
+			case 1:
+				pos = len(sp.Sections) // last
+			default:
+				pos = r.IntN(len(sp.Sections) + 1)
+			}
+			sp.Sections = append(sp.Sections[:pos], append([]tdxref.Section{z}, sp.Sections[pos:]...)...)
+			sp.Feat["zero-size-sec"] = true
+		}
+		nsec = len(sp.Sections)
 	}
 	// descriptor offset: anywhere between the GUID in front of it and the table at the end
 	need := 16 + 32*nsec
